@@ -313,7 +313,10 @@ def record_random(ctx):
 
 
 def random_sim(rng, k):
-    cmds = ["read", "set", "trigger", "wait", "checkpoint"]
+    # the RunEngine's command vocabulary has names that contain one another (stage/unstage, wait/wait_for,
+    # checkpoint/clear_checkpoint, monitor/unmonitor): a handler for one must never answer the other
+    cmds = ["read", "set", "trigger", "wait", "wait_for", "checkpoint", "clear_checkpoint", "stage", "unstage",
+            "monitor", "unmonitor"]
     objs = ["x", "y", "z", "none"]
     hs = []
     codes = [c for c in RESULTS]
